@@ -1,3 +1,5 @@
 import SqLemmas.DecLemmas
 import SqLemmas.LexLemmas
 import SqLemmas.MachineLemmas
+import SqLemmas.ParseSpec
+import SqLemmas.ParseComplete
